@@ -22,6 +22,10 @@ import (
 type c13Case struct {
 	Hist     History `json:"hist"`
 	MergeCfg EngCfg  `json:"mergecfg"`
+	// Scan: the Merge runs against a MetaStore that is the DataStore itself
+	// (every complete file the store holds is referenced; publish at Close):
+	// an output that a failed Merge leaves behind is then a referenced file
+	Scan bool `json:"scan,omitempty"`
 }
 
 var c13Kinds = map[string]bool{"IterStart": true, "IterYield": true, "CreateFile": true, "OpenFile": true, "Read": true, "Seek": true, "Write": true, "Close": true, "Update": true, "Tombstone": true, "Abort": true}
@@ -50,7 +54,7 @@ func genC13() *rapid.Generator[c13Case] {
 		c := mergeFriendly(t, last)
 		c.MaxMerge = pick(t, "maxmerge", []int{10, 6, 4})
 		c.MaxFileSize = pick(t, "maxfile", []int{10 << 30, 3000, 1200})
-		return c13Case{Hist: h, MergeCfg: c}
+		return c13Case{Hist: h, MergeCfg: c, Scan: chance(t, "scan", 35)}
 	})
 }
 
@@ -107,12 +111,18 @@ type c13Run struct {
 	ds     *MemDataStore
 }
 
-func runMergeWithPlan(w *World, cfg EngCfg, plan map[int]string) (*c13Run, *Violation) {
+func runMergeWithPlan(w *World, cfg EngCfg, plan map[int]string, scan ...bool) (*c13Run, *Violation) {
 	ds := w.MemData.Clone()
-	ms, err := cloneMeta(w.Meta)
-	if err != nil {
-		infra("clone meta: %v", err)
-		return nil, nil
+	var ms bs.MetaStore
+	if len(scan) > 0 && scan[0] {
+		ms = &ScanMetaStore{DS: ds}
+	} else {
+		mm, err := cloneMeta(w.Meta)
+		if err != nil {
+			infra("clone meta: %v", err)
+			return nil, nil
+		}
+		ms = mm
 	}
 	r := &c13Run{fired: map[int]string{}, ds: ds}
 	tr := NewTrace(ds, ms)
@@ -258,6 +268,22 @@ func judgeC13(before *c13State, base *c13Run, r *c13Run, plan map[int]string) *V
 			return violf("Merge committed output %s whose writer Close did not succeed before the commit (%s)", p, desc)
 		}
 	}
+	// durable output is complete output: every committed file is a whole bloom
+	// file (its own footer parses, and every Write made to it succeeded)
+	for _, p := range writes {
+		raw, ok := r.ds.Get(p)
+		if !ok {
+			return violf("Merge committed output %s which is not in the DataStore (%s)", p, desc)
+		}
+		if _, _, err := bs.ReadFileMetadata(bytes.NewReader(raw)); err != nil {
+			return violf("Merge committed output %s, which does not parse as a bloom file (%v): not durable output (%s)", p, err, desc)
+		}
+		for i := 0; i < updIdx; i++ {
+			if c := r.log[i]; c.Kind == "Write" && c.Ptr == p && c.Err != "" {
+				return violf("Merge committed output %s although a Write to it had failed (%s) (%s)", p, c.Err, desc)
+			}
+		}
+	}
 	// sources tombstoned only after the commit
 	srcFailed := false
 	for i, c := range r.log {
@@ -388,7 +414,7 @@ func runC13(c c13Case) *Violation {
 	if err != nil {
 		return violf("population unreadable: %v", err)
 	}
-	base, v := runMergeWithPlan(w, c.MergeCfg, nil)
+	base, v := runMergeWithPlan(w, c.MergeCfg, nil, c.Scan)
 	if v != nil {
 		return v
 	}
@@ -434,7 +460,7 @@ func runC13(c c13Case) *Violation {
 		}
 	}
 	try := func(plan map[int]string, pos int) *Violation {
-		r, v := runMergeWithPlan(w, c.MergeCfg, plan)
+		r, v := runMergeWithPlan(w, c.MergeCfg, plan, c.Scan)
 		if v != nil {
 			return v
 		}
@@ -477,7 +503,7 @@ func runC13(c c13Case) *Violation {
 
 func TestC13(t *testing.T) {
 	Ev.Level = "fault_enumeration"
-	Ev.Rule = "case = generated population (several engine configurations, partitions, optionally external-writer files) in a cloneable in-memory DataStore + MemoryMetaStore, and a merge configuration. Merge is run fault-free on a copy to number every store call (iterator start/yield, CreateFile, OpenFile, Read, Seek, Write, Close, Abort, Update, TombstoneFile); then ONCE PER POSITION on a fresh copy with a failure there (before the call; Write also short-write; Close also publish-then-fail). Oracle per run: row multiset and bytes preserved; if MetaStore.Update did not succeed: same pointers, source files byte-identical, no source tombstoned, no ErrPostCommitCleanup, and nil is not returned when the fault-free run merges; if it succeeded: pointers = before - deletes + writes, every committed output's Close succeeded before the Update, sources tombstoned only after it, error is nil or wraps ErrPostCommitCleanup (with stats) exactly when a source tombstone failed. Plus per population: three further Merge calls made one after the other while the first is gated inside CreateFile all return ErrMergeInProgress. Non-trivial: the fault fired in the second or a later group, or after the Update; distinct by hash(case, plan)."
+	Ev.Rule = "case = generated population (several engine configurations, partitions, optionally external-writer files) in a cloneable in-memory DataStore + MemoryMetaStore (in a third of the cases the Merge runs against a MetaStore that is the DataStore itself: every complete file the store holds is referenced, published at Close — the in-memory counterpart of the filesystem store used as MetaStore), and a merge configuration. Merge is run fault-free on a copy to number every store call (iterator start/yield, CreateFile, OpenFile, Read, Seek, Write, Close, Abort, Update, TombstoneFile); then ONCE PER POSITION on a fresh copy with a failure there (before the call; Write also short-write; Close also publish-then-fail). Oracle per run: row multiset and bytes preserved; if MetaStore.Update did not succeed: same pointers, source files byte-identical, no source tombstoned, no ErrPostCommitCleanup, and nil is not returned when the fault-free run merges; if it succeeded: pointers = before - deletes + writes, every committed output's Close succeeded before the Update, no Write to it had failed and its own footer parses, sources tombstoned only after it, error is nil or wraps ErrPostCommitCleanup (with stats) exactly when a source tombstone failed. Plus per population: three further Merge calls made one after the other while the first is gated inside CreateFile all return ErrMergeInProgress. Non-trivial: the fault fired in the second or a later group, or after the Update; distinct by hash(case, plan)."
 	Ev.Assumptions = []string{"MemoryMetaStore.Update is atomic", "faults are one-shot"}
 	runChecks(t, "faults", 12, 300, genC13(), runC13)
 }
